@@ -1,6 +1,7 @@
 package verifsim
 
 import (
+	"sync"
 	"crypto/sha256"
 	"encoding/hex"
 	"fmt"
@@ -44,6 +45,7 @@ type WitKey struct {
 }
 
 type World struct {
+	mu      sync.Mutex // Sign may be called from several stub-server goroutines
 	Seed    uint64
 	Logs    []*LogDef
 	Keys    []*Key // log keys by index
@@ -95,6 +97,8 @@ func NewWorld(p *Plan) *World {
 
 // Sign records text as signed by key k and returns the signature line.
 func (w *World) Sign(keyIdx int, cp *SignedCP) string {
+	w.mu.Lock()
+	defer w.mu.Unlock()
 	cp.Key = keyIdx
 	m := w.Signed[keyIdx]
 	if m == nil {
